@@ -66,14 +66,67 @@ def check(F, rep, tier):
             cs = cmpterm.Comparator(F, h)
             ku = "Ord<u32>::cmp(self#UInt.0,other#UInt.0)"
             ks = "Ord<String>::cmp(to_lowercase(self#Str.0),to_lowercase(other#Str.0))"
+            # text parts: an all-digit one is a number too large for UInt(u32), kept verbatim without leading zeros, so it compares
+            # by (length, digits) = by value, and below every alphabetic part; alphabetic parts compare case-insensitively
+            kns = "is_numeric_text(self#Str.0)"; kno = "is_numeric_text(other#Str.0)"
+            klen = "Ord<usize>::cmp(len(self#Str.0),len(other#Str.0))"
+            kdig = "Ord<str>::cmp(self#Str.0,other#Str.0)"
             def spec(a):
                 s, o = a["self"], a["other"]
                 if s == "UInt" and o == "UInt": return a[ku]
-                if s == "Str" and o == "Str": return a[ks]
+                if s == "Str" and o == "Str":
+                    ns, no = a[kns] == "true", a[kno] == "true"
+                    if ns and no: return a[klen] if a[klen] != "Equal" else a[kdig]
+                    if ns != no: return "Less" if ns else "Greater"
+                    return a[ks]
                 return "Less" if s == "UInt" else "Greater"
-            evals += check_stages(rep, "R11.3", cs, [("segment", {"self": ("Str", "UInt"), "other": ("Str", "UInt"), ku: ORD, ks: ORD}, spec)], "LocalSegment::cmp") or 0
+            evals += check_stages(rep, "R11.3", cs, [("segment", {"self": ("Str", "UInt"), "other": ("Str", "UInt"), ku: ORD, ks: ORD, kns: ("false", "true"), kno: ("false", "true"), klen: ORD, kdig: ORD}, spec)], "LocalSegment::cmp") or 0
         except cmpterm.Unrecognised as e:
             rep.undecided("R11.3", "unrecognised-shape:LocalSegment::cmp", str(e), h.where())
+    # ---- R11.7 numeric local parts compare by value whatever their size -------------------------------------------------------------
+    # LocalSegment::UInt holds a u32; where the parser keeps a longer digit run as text (Str), the comparator must still treat it as
+    # a number (by value, below alphabetic parts) - a plain text comparison orders 10000000000 below 4294967296.
+    if h is not None:
+        import parsers as _ps
+        producers = []
+        for p_, g_ in F.fns.items():
+            if not p_.startswith("crate::version::pep440::parser::"): continue
+            for bi, t in g_.calls():
+                c = mir.callee(t) or ""
+                is_ctor = c.endswith("LocalSegment::try_new_str") or any(a[0] == "c" and a[1].get("k") == "fn" and str(a[1].get("path")).endswith("LocalSegment::Str") for a in t[2])
+                if not is_ctor: continue
+                g2, b2 = g_, bi
+                for _ in range(4):
+                    try:
+                        paths = [pp for pp in mir.enum_paths(g2, limit=5000, stop_blocks=[b2]) if pp[-1] == b2]
+                    except mir.TooManyPaths:
+                        break
+                    if any(any(m == "all" and tr and pr == "is_ascii_digit" for m, c_, tr, pr in f_) for pp in paths for f_ in _ps.path_facts(F, g2, pp)):
+                        producers.append("%s bb%d line %s" % (g_.where(), bi, g_.blocks[bi]["line"])); break
+                    par = F.fn(g2.parent) if g2.kind == "closure" and g2.parent else None
+                    if par is None: break
+                    made = [b3 for b3, s3, st in par.stmts() if st[0] == "=" and st[2][0] == "agg" and st[2][1].get("k") == "closure" and st[2][1]["path"] == g2.path]
+                    if not made: break
+                    g2, b2 = par, made[0]
+        cgl = mir.CallGraph(F)
+        cmp_scope = [F.fn(p_) for p_ in cgl.closure([h.path], generic=False) if F.fn(p_) is not None and p_.startswith("crate::version::pep440::")]
+        cmp_scope += [c_ for g_ in list(cmp_scope) for c_ in F.children(g_.path)]
+        digit_aware = any((mir.callee(t) or "").rsplit("::", 1)[-1] in ("is_ascii_digit", "is_numeric", "is_digit", "parse") for g_ in cmp_scope for bi, t in g_.calls()) or \
+                      any(a[0] == "c" and a[1].get("k") == "fn" and str(a[1].get("path")).endswith("is_ascii_digit") for g_ in cmp_scope for bi, t in g_.calls() for a in t[2])
+        if producers and not digit_aware:
+            rep.bad("R11.7", "big-numeric-local-as-text", "the parser keeps an all-digit local part that does not fit u32 as text (%s) and <LocalSegment as Ord>::cmp compares text parts only as lower-cased strings: 1.0+10000000000 orders below 1.0+4294967296 (numeric parts must compare by value)" % producers[0], h.where())
+        elif producers:
+            # what the comparator calls "numeric text" is: non-empty and ASCII digits only
+            for g_ in cmp_scope:
+                if g_.kind == "closure" or g_.d.get("ret") != "bool" or g_.path == h.path: continue
+                preds = [_ps.closure_pred_name(F, g_, t[2][1]) for bi, t in g_.calls() if (mir.callee(t) or "").endswith("Iterator::all") and len(t[2]) > 1]
+                anyp = [1 for bi, t in g_.calls() if (mir.callee(t) or "").endswith("Iterator::any")]
+                empt = any((mir.callee(t) or "").endswith("::is_empty") for bi, t in g_.calls())
+                if preds == ["is_ascii_digit"] and not anyp and empt: rep.ok("R11.7", "%s = !is_empty && all(is_ascii_digit)" % g_.path.rsplit("::", 1)[-1], nontrivial_key="numtext" + g_.path)
+                elif preds or anyp: rep.bad("R11.7", "numeric-text-test:" + g_.path.rsplit("::", 1)[-1], "the comparator's test for a numeric text part is not `non-empty and all ASCII digits` (all-predicates %s, any-predicates %d, is_empty %s)" % (preds, len(anyp), empt), g_.where())
+            rep.ok("R11.7", "digit runs kept as text (%d site(s)) meet a comparator that tests for digits (its table is R11.3)" % len(producers), nontrivial_key="bignum")
+        else:
+            rep.ok("R11.7", "the parser never stores an all-digit local part as text", nontrivial_key="bignum-none")
     eq_via_cmp(F, rep, "R11.4", PEP, f)
     # derived PartialEq on LocalSegment is structural; check that PEP440 equality does not use it for `local` outside cmp
     # ---- R11.5 spelling funnel: every spelling must reach the comparator at all - the parser adds no accept/reject
@@ -85,6 +138,14 @@ def check(F, rep, tier):
     rep.extra["abstract_assignments_evaluated"] = evals
     # ---- R11.6 dependency: text local segments enter the comparison key through LocalSegment::try_new_str, i.e. through the
     # pep440_local_str sanitiser preset; a length cap there makes long segments that differ late compare equal
+    nstr = 0
+    for p_, g_ in F.fns.items():
+        if not (p_.startswith("crate::version::pep440::parser::") or p_.startswith("crate::version::pep440::core::")) or "::tests" in p_: continue
+        for bi, si, st in g_.stmts():
+            if st[0] == "=" and st[2][0] == "agg" and st[2][1].get("k") == "adt" and (st[2][1].get("adt") or "").endswith("LocalSegment") and st[2][1].get("variant") == "Str":
+                nstr += 1
+                rep.bad("R11.6", "local-text-unsanitised:" + p_.replace("crate::", "").rsplit("::", 1)[-1], "a text local part is built with LocalSegment::Str(..) directly instead of LocalSegment::try_new_str: it skips the sanitiser that strips leading zeros of digit runs and unifies spelling, so two spellings of one version get different comparison keys", "%s bb%d line %s" % (g_.where(), bi, g_.blocks[bi]["line"]))
+    if not nstr: rep.ok("R11.6", "the PEP 440 parser and normaliser build text local parts only through LocalSegment::try_new_str", nontrivial_key="viasan")
     core.borrow(F, rep, "c07", "C07", "R11.6", ("preset-config:pep440_local_str",), "the local-segment sanitiser preset does not shorten segments")
     return core.finish(rep, explanation=EXPL, assumptions=ASSUME, trusted=TRUST)
 
